@@ -568,3 +568,855 @@ Section RevealFragments.
       destruct (ra N_order T dr (c_left (fst A)) (c_right (fst A)) P) as [[a1 l1] r1]. cbn [fst] in H1. lia.
   Qed.
 End RevealFragments.
+
+(* ================================================================================================================= *)
+(* RevealBefore called incrementally: between two calls the left pointers themselves are rewritten (each is replaced by
+   its extension with the words revealed so far), so the second call walks further from where the first one stopped.
+   One ExtendLeft over the context A1 ++ A2 is ExtendLeft over A1 followed by ExtendLeft over A2 from the extended
+   pointer (the el_comp lemmas); the loops of the single call, of the first call and of the second call are then run side by side. *)
+Section RevealBefore.
+  Variable N_order : nat.
+  Hypothesis Hord : 2 <= N_order.
+  Variable T : table.
+  Variable M : arpa.
+  Hypothesis Inv : TInv N_order T M.
+  Variable dr : bool.
+  Hypothesis rest_dr : dr = false -> forall k e, T k = Some e -> e_rest e = e_prob e.
+  Hypothesis ext_ctx : forall k e, T k = Some e -> e_ext e = true -> 2 <= length k -> exists x, T (x :: k) <> None.
+
+  Notation el := (extend_left N_order T).
+  Notation unr := (un_rest T dr).
+  Definition rest_of (p : key) : Z := e_rest (match T p with Some e => e | None => unk_entry end).
+
+  Lemma sum_bo_app' : forall a b, sum_bo (a ++ b) = (sum_bo a + sum_bo b)%Z.
+  Proof. unfold sum_bo. induction a as [|x a IH]; intros b; cbn [app fold_right]; [lia|]. rewrite IH. lia. Qed.
+
+  Lemma rx0_len : forall p, r_len (rx0_of T p) = length p.
+  Proof. reflexivity. Qed.
+
+  Lemma el_comp_indep : forall A1 A2 B1 B2 p ret1 bo1 nu1, 1 <= length p <= N_order - 1 -> length B1 = length A1 ->
+    el A1 B1 p = (ret1, bo1, nu1) -> r_indep ret1 = true ->
+    el (A1 ++ A2) (B1 ++ B2) p =
+    ({| r_prob := (r_prob ret1 + sum_bo (firstn (length A2) B2))%Z; r_len := r_len ret1; r_indep := true; r_ext := r_ext ret1;
+        r_rest := r_rest ret1 |}, bo1, nu1).
+  Proof.
+    intros A1 A2 B1 B2 p ret1 bo1 nu1 Hp HB H1 Hi.
+    rewrite extend_left_core in *. cbn zeta in *.
+    pose proof (core_app N_order T A1 A2 (length p - 1) p (rx0_of T p)) as HA.
+    destruct (resume_core N_order T A1 (length p - 1) p (rx0_of T p)) as [[b1 o1] r1] eqn:E1.
+    injection H1 as <- <- <-. cbn [r_indep] in Hi. rewrite Hi in HA. rewrite HA.
+    destruct (core_rlen N_order Hord T _ _ _ _ _ _ _ E1 ltac:(rewrite rx0_len; lia) ltac:(lia)) as [L1 L2].
+    cbn [r_prob r_len r_indep r_ext r_rest]. rewrite Hi.
+    f_equal. f_equal. f_equal.
+    set (m := r_len r1 - length p). assert (Hm : m <= length A1) by (unfold m; lia).
+    rewrite app_length.
+    rewrite skipn_app. replace (m - length B1) with 0 by lia. cbn [skipn].
+    rewrite firstn_app. rewrite skipn_length.
+    replace (length A1 + length A2 - m - (length B1 - m)) with (length A2) by lia.
+    rewrite (firstn_all2 (n := length A1 + length A2 - m) (skipn m B1)) by (rewrite skipn_length; lia).
+    rewrite (firstn_all2 (n := length A1 - m) (skipn m B1)) by (rewrite skipn_length; lia).
+    rewrite sum_bo_app'. lia.
+  Qed.
+
+  Lemma el_comp_ext : forall A1 B1 p ret1 bo1 nu1, 1 <= length p <= N_order - 1 -> A1 <> [] -> length B1 = length A1 ->
+    el A1 B1 p = (ret1, bo1, nu1) -> r_indep ret1 = false ->
+    exists e, T (p ++ A1) = Some e /\ e_left e = true /\ r_ext ret1 = p ++ A1 /\ length bo1 = length A1 /\
+      length p + length A1 <= N_order - 1 /\
+      r_rest ret1 = (e_rest e - rest_of p)%Z /\ r_prob ret1 = (e_prob e - rest_of p)%Z /\ nu1 <= length A1 /\
+      forall A2 B2 ret2 bo2 nu2, el A2 B2 (p ++ A1) = (ret2, bo2, nu2) ->
+        el (A1 ++ A2) (B1 ++ B2) p =
+        ({| r_prob := (r_rest ret1 + r_prob ret2)%Z; r_len := r_len ret2; r_indep := r_indep ret2; r_ext := r_ext ret2;
+            r_rest := (r_rest ret1 + r_rest ret2)%Z |}, bo1 ++ bo2, if Nat.eqb nu2 0 then nu1 else length A1 + nu2) /\
+        (nu1 < length A1 -> nu2 = 0).
+  Proof.
+    intros A1 B1 p ret1 bo1 nu1 Hp HA1 HB H1 Hi.
+    rewrite extend_left_core in H1. cbn zeta in H1.
+    destruct (resume_core N_order T A1 (length p - 1) p (rx0_of T p)) as [[b1 o1] r1] eqn:E1.
+    injection H1 as <- <- <-. cbn [r_indep] in Hi.
+    destruct (core_walk_all N_order Hord T A1 (length p - 1) p (rx0_of T p) b1 o1 r1 E1 Hi HA1 ltac:(lia) ltac:(lia))
+      as [e [He [Hr1 [Hl [Hx Hlen]]]]].
+    pose proof (core_app N_order T A1 [] (length p - 1) p (rx0_of T p)) as HA0. rewrite E1, Hi in HA0. destruct HA0 as [Hb1 _].
+    destruct (core_pick_range N_order T _ _ _ _ _ _ _ E1) as [_ Ho1].
+    assert (Hnu1 : pick o1 (length p) - length p <= length A1).
+    { destruct o1 as [v|]; cbn [pick]; lia. }
+    exists e. split; [exact He|]. split; [exact Hl|]. cbn [r_ext r_rest r_prob].
+    split; [rewrite Hr1; reflexivity|]. split; [exact Hb1|]. split; [lia|].
+    split; [rewrite Hr1; reflexivity|]. split.
+    { rewrite Hr1. cbn [r_prob r_len]. rewrite app_length.
+      replace (length A1 - (length p + length A1 - length p)) with 0 by lia. cbn [firstn]. unfold sum_bo. cbn [fold_right]. unfold rest_of. lia. }
+    split; [exact Hnu1|].
+    intros A2 B2 ret2 bo2 nu2 H2.
+    rewrite extend_left_core in H2. cbn zeta in H2.
+    assert (Erx : rx0_of T (p ++ A1) = r1).
+    { rewrite Hr1. unfold rx0_of. rewrite He.
+      replace (Nat.eqb (length (p ++ A1)) 1) with false; [reflexivity|].
+      symmetry. apply Nat.eqb_neq. rewrite app_length. destruct A1; [congruence|cbn [length]; lia]. }
+    rewrite Erx in H2. rewrite app_length in H2.
+    replace (length p + length A1 - 1) with (length p - 1 + length A1) in H2 by lia.
+    destruct (resume_core N_order T A2 (length p - 1 + length A1) (p ++ A1) r1) as [[b2 o2] r2] eqn:E2.
+    injection H2 as <- <- <-.
+    assert (Hr1len : r_len r1 = S (length p - 1 + length A1)) by (rewrite Hr1; cbn [r_len]; rewrite app_length; lia).
+    destruct (core_rlen N_order Hord T _ _ _ _ _ _ _ E2 Hr1len ltac:(lia)) as [L1 L2].
+    destruct (core_pick_range N_order T _ _ _ _ _ _ _ E2) as [Hb2 Ho2].
+    split.
+    - rewrite extend_left_core. cbn zeta.
+      pose proof (core_app N_order T A1 A2 (length p - 1) p (rx0_of T p)) as HA. rewrite E1, Hi in HA. destruct HA as [_ HA].
+      rewrite HA, E2. cbn [r_prob r_len r_indep r_ext r_rest]. rewrite He. fold (rest_of p).
+      f_equal; [f_equal|].
+      + f_equal; [|rewrite Hr1; cbn [r_rest]; unfold rest_of; lia].
+        rewrite Hr1. cbn [r_rest].
+        set (m2 := r_len r2 - (length p + length A1)).
+        replace (r_len r2 - length p) with (length A1 + m2) by (unfold m2; lia).
+        rewrite app_length.
+        replace (length A1 + length A2 - (length A1 + m2)) with (length A2 - m2) by lia.
+        rewrite skipn_app. rewrite HB. replace (length A1 + m2 - length A1) with m2 by lia.
+        rewrite (skipn_all2 (n := length A1 + m2) B1) by lia. cbn [app]. unfold rest_of. lia.
+      + destruct o2 as [v|]; cbn [pick].
+        * replace (Nat.eqb (v - (length p + length A1)) 0) with false by (symmetry; apply Nat.eqb_neq; lia). lia.
+        * rewrite Nat.sub_diag. cbn [Nat.eqb]. reflexivity.
+    - intros Hlt. destruct o2 as [v|]; cbn [pick]; [|lia]. exfalso.
+      destruct (core_pick_ext N_order Hord T A2 _ (p ++ A1) r1 b2 (Some v) r2 v E2 eq_refl ltac:(rewrite app_length; lia))
+        as [e2 [He2 [Hx2 _]]].
+      assert (Hpne : p ++ A1 <> []) by (destruct p; [cbn in Hp; lia|discriminate]).
+      pose proof (ext_suffix N_order Hord T M Inv ext_ctx (p ++ A1) _ e2 e Hpne He2 Hx2 He) as Hxe.
+      rewrite (Hx Hxe) in Hlt. cbn [pick] in Hlt. rewrite app_length in Hlt. lia.
+  Qed.
+
+  (* ---- ExtendLoop (writing) as a fold over the pointers ---------------------------------------------------------- *)
+  Record st := { md : bool; wr : list key; aj : Z; nx : nat; bk : list boval }.   (* md = still in the writing loop *)
+  Definition stepf (add : list word) (s : st) (p : key) : st :=
+    if md s then
+      let '(ret, bo, nu') := el (firstn (nx s) add) (bk s) p in
+      if r_indep ret then {| md := false; wr := wr s; aj := (aj s + r_prob ret)%Z; nx := nu'; bk := bo |}
+      else {| md := Nat.eqb nu' (length add); wr := wr s ++ [r_ext ret]; aj := (aj s + r_rest ret)%Z; nx := nu'; bk := bo |}
+    else if Nat.eqb (nx s) 0 then {| md := false; wr := wr s; aj := (aj s + unr [p])%Z; nx := 0; bk := bk s |}
+    else
+      let '(ret, bo, nu') := el (firstn (nx s) add) (bk s) p in
+      {| md := false; wr := wr s; aj := (aj s + r_prob ret)%Z; nx := nu'; bk := bo |}.
+  Definition run (add : list word) (P : list key) (s : st) : st := fold_left (stepf add) P s.
+
+  Lemma unr_cons : forall p P, unr (p :: P) = (unr [p] + unr P)%Z.
+  Proof. intros. change (p :: P) with ([p] ++ P). apply (unr_app' N_order Hord). Qed.
+
+  Lemma run_cons : forall add p P s, run add (p :: P) s = run add P (stepf add s p).
+  Proof. reflexivity. Qed.
+  Lemma run_nil : forall add s, run add [] s = s.
+  Proof. reflexivity. Qed.
+
+  Lemma run_stopped : forall add Q w a b,
+    run add Q {| md := false; wr := w; aj := a; nx := 0; bk := b |} = {| md := false; wr := w; aj := (a + unr Q)%Z; nx := 0; bk := b |}.
+  Proof.
+    intros add Q. induction Q as [|q Q IHQ]; intros w a b.
+    - rewrite run_nil, unr_nil''. f_equal. lia.
+    - rewrite run_cons. unfold stepf. cbn [md nx bk wr aj Nat.eqb]. rewrite IHQ. rewrite (unr_cons q Q). f_equal. lia.
+  Qed.
+
+  Lemma run_full : forall add P w a nu back rest a' nu' bk',
+    ext_full N_order T add P a nu back = (rest, a', nu', bk') ->
+    run add P {| md := false; wr := w; aj := a; nx := nu; bk := back |} =
+    {| md := false; wr := w; aj := (a' + unr rest)%Z; nx := nu'; bk := bk' |}.
+  Proof.
+    intros add P. induction P as [|p P IH]; intros w a nu back rest a' nu' bk' H; cbn [ext_full] in H.
+    - injection H as <- <- <- <-. rewrite run_nil, unr_nil''. f_equal. lia.
+    - destruct (Nat.eqb_spec nu 0) as [E|E].
+      + injection H as <- <- <- <-. subst nu. rewrite run_stopped. reflexivity.
+      + rewrite run_cons. unfold stepf. cbn [md nx bk wr aj].
+        replace (Nat.eqb nu 0) with false by (symmetry; apply Nat.eqb_neq; exact E).
+        destruct (el (firstn nu add) back p) as [[ret bo] nu1]. apply (IH _ _ _ _ _ _ _ _ H).
+  Qed.
+
+  Lemma run_write : forall add P w a back rest w' a' mf nu' bk',
+    ext_write N_order T add (length add) P w a (length add) back = (rest, w', a', mf, nu', bk') ->
+    run add P {| md := true; wr := w; aj := a; nx := length add; bk := back |} =
+    run add rest {| md := negb mf; wr := w'; aj := a'; nx := nu'; bk := bk' |}.
+  Proof.
+    intros add P. induction P as [|p P IH]; intros w a back rest w' a' mf nu' bk' H; cbn [ext_write] in H.
+    - injection H as <- <- <- <- <- <-. reflexivity.
+    - rewrite run_cons. unfold stepf. cbn [md nx bk wr aj].
+      destruct (el (firstn (length add) add) back p) as [[ret bo] nu1].
+      destruct (r_indep ret).
+      + injection H as <- <- <- <- <- <-. reflexivity.
+      + destruct (Nat.eqb_spec nu1 (length add)) as [E|E]; cbn [negb] in H.
+        * subst nu1. apply (IH _ _ _ _ _ _ _ _ _ H).
+        * injection H as <- <- <- <- <- <-. reflexivity.
+  Qed.
+
+  Lemma xl_run : forall add bs P,
+    extend_loop N_order T dr add bs P true =
+    (let s := run add P {| md := true; wr := []; aj := 0%Z; nx := length add; bk := firstn (length add) bs |} in
+     ({| x_adjust := aj s; x_make_full := negb (md s); x_next_use := nx s |}, wr s, firstn (nx s) (bk s))).
+  Proof.
+    intros add bs P. cbn zeta. unfold extend_loop.
+    destruct (ext_write N_order T add (length add) P [] 0%Z (length add) (firstn (length add) bs)) as [[[[[rest1 w1] a1] mf] nu1] b1] eqn:E1.
+    rewrite (run_write _ _ _ _ _ _ _ _ _ _ _ E1).
+    destruct (ext_full N_order T add rest1 a1 nu1 b1) as [[[rest2 a2] nu2] b2] eqn:E2.
+    destruct mf; cbn [negb].
+    - rewrite (run_full _ _ _ _ _ _ _ _ _ _ E2). reflexivity.
+    - (* the writing loop ran to the end: nothing is left for the second loop *)
+      destruct (xw_nobreak N_order Hord T _ _ _ _ _ _ _ _ _ _ _ _ E1) as [-> _]. cbn [ext_full] in E2. injection E2 as <- <- <- <-.
+      rewrite run_nil. cbn [md aj nx wr bk negb]. rewrite unr_nil''. f_equal. f_equal. f_equal. lia.
+  Qed.
+
+
+  Lemma el_nil_prob : forall B q e, T q = Some e ->
+    exists ret, el [] B q = (ret, [], 0) /\ r_prob ret = (e_prob e - e_rest e)%Z.
+  Proof.
+    intros B q e He. rewrite extend_left_core. cbn zeta. cbn [resume_core]. unfold rx0_of. rewrite He.
+    cbn [r_prob r_len r_indep r_ext r_rest pick length]. rewrite Nat.sub_diag.
+    eexists. split; [reflexivity|]. cbn [r_prob Nat.sub firstn]. unfold sum_bo. cbn [fold_right]. lia.
+  Qed.
+
+
+
+  Lemma stepf_bounds : forall add s p, p <> [] -> nx s <= length add -> nx s <= length (bk s) ->
+    nx (stepf add s p) <= length add /\ nx (stepf add s p) <= length (bk (stepf add s p)).
+  Proof.
+    intros add s p Hp H1 H2. unfold stepf. destruct (md s).
+    - destruct (el (firstn (nx s) add) (bk s) p) as [[ret bo] nu'] eqn:E.
+      destruct (extend_left_bounds N_order Hord T _ _ _ _ _ _ Hp E) as [Q1 [Q2 _]]. rewrite firstn_length in Q1.
+      destruct (r_indep ret); cbn [nx bk]; lia.
+    - destruct (Nat.eqb (nx s) 0); [cbn [nx bk]; lia|].
+      destruct (el (firstn (nx s) add) (bk s) p) as [[ret bo] nu'] eqn:E.
+      destruct (extend_left_bounds N_order Hord T _ _ _ _ _ _ Hp E) as [Q1 [Q2 _]]. rewrite firstn_length in Q1. cbn [nx bk]. lia.
+  Qed.
+  Lemma run_bounds : forall add P s, Forall (fun p : key => p <> []) P -> nx s <= length add -> nx s <= length (bk s) ->
+    nx (run add P s) <= length add /\ nx (run add P s) <= length (bk (run add P s)).
+  Proof.
+    intros add P. induction P as [|p P IH]; intros s HP H1 H2; [rewrite run_nil; split; assumption|].
+    inversion HP as [|? ? Hp HP']. subst. rewrite run_cons. destruct (stepf_bounds add s p Hp H1 H2) as [B1 B2]. apply IH; assumption.
+  Qed.
+
+  (* RevealBefore with reveal_full = false, as a function of the words and back-offs it adds *)
+  Definition rbf (add : list word) (bs : list boval) (l : left) (r : state) : Z * left * state :=
+    let '(v, written, bw) := extend_loop N_order T dr add bs (l_ptrs l) true in
+    let make_full := orb (x_make_full v) (Nat.eqb (length written) (N_order - 1)) in
+    if l_full l then ((x_adjust v + sum_bo bw)%Z, {| l_ptrs := written; l_full := true |}, r)
+    else
+      let r' := {| s_words := s_words r ++ firstn (x_next_use v) add; s_bo := s_bo r ++ bw |} in
+      (x_adjust v, {| l_ptrs := written; l_full := orb make_full (Nat.eqb (length (s_words r')) (N_order - 1)) |}, r').
+
+  Lemma rb_unfold : forall rv seen l r,
+    reveal_before N_order T dr rv seen false l r = rbf (skipn seen (s_words rv)) (skipn seen (s_bo rv)) l r.
+  Proof.
+    intros. unfold reveal_before, rbf. cbn [negb].
+    destruct (extend_loop N_order T dr (skipn seen (s_words rv)) (skipn seen (s_bo rv)) (l_ptrs l) true) as [[v written] bw].
+    destruct (l_full l); reflexivity.
+  Qed.
+
+  Definition good' (p : key) : Prop := 1 <= length p <= N_order - 1.
+  Definition BJ (l : left) (r : state) (s : nat) : Prop :=
+    Forall good' (l_ptrs l) /\ length (s_bo r) = length (s_words r) /\
+    (l_full l = false -> chain N_order s (l_ptrs l) /\ length (s_words r) = length (l_ptrs l) + s).
+
+  (* ---- the single call, the first call and the second call side by side -------------------------------------------- *)
+  Section Sim.
+    Variables A1 A2 : list word.
+    Hypothesis HA1 : A1 <> [].
+    Hypothesis HA2 : A2 <> [].
+    Let a1 := length A1.
+    Let a2 := length A2.
+
+    Lemma a1_pos : 1 <= a1.
+    Proof. unfold a1. assert (length A1 <> 0) by (intro H0; apply HA1; apply length_zero_iff_nil; exact H0). lia. Qed.
+    Lemma a2_pos : 1 <= a2.
+    Proof. unfold a2. assert (length A2 <> 0) by (intro H0; apply HA2; apply length_zero_iff_nil; exact H0). lia. Qed.
+
+    (* the pointer the first call writes for p, if any *)
+    Definition new1 (s1 : st) (p : key) : option key :=
+      if md s1 then let '(ret, _, _) := el (firstn (nx s1) A1) (bk s1) p in if r_indep ret then None else Some (r_ext ret)
+      else None.
+    Definition step2 (s1 s2 : st) (p : key) : st := match new1 s1 p with Some q => stepf A2 s2 q | None => s2 end.
+
+    Inductive Rel (s s1 s2 : st) : Prop :=
+    | RelA : md s = true -> md s1 = true -> md s2 = true -> nx s = a1 + a2 -> nx s1 = a1 -> nx s2 = a2 ->
+             wr s = wr s2 -> aj s = (aj s1 + aj s2)%Z -> length (bk s1) = a1 ->
+             firstn (a1 + a2) (bk s) = bk s1 ++ firstn a2 (bk s2) -> Rel s s1 s2
+    | RelB : md s = false -> md s1 = true -> md s2 = false -> nx s1 = a1 -> nx s = a1 + nx s2 -> nx s2 <= a2 ->
+             wr s = wr s2 -> aj s = (aj s1 + aj s2)%Z -> length (bk s1) = a1 ->
+             firstn (nx s) (bk s) = bk s1 ++ firstn (nx s2) (bk s2) -> Rel s s1 s2
+    | RelC : md s = false -> md s1 = false -> nx s = nx s1 -> nx s1 <= a1 -> wr s = wr s2 ->
+             aj s = (aj s1 + aj s2 + sum_bo (firstn (nx s2) (bk s2)))%Z ->
+             firstn (nx s) (bk s) = firstn (nx s1) (bk s1) -> Rel s s1 s2.
+
+    Lemma firstn_app_exact : forall (X : Type) (l1 l2 : list X) n, length l1 = n -> forall k, firstn (n + k) (l1 ++ l2) = l1 ++ firstn k l2.
+    Proof. intros X l1 l2 n H k. rewrite firstn_app, H. replace (n + k - n) with k by lia. rewrite firstn_all2 by lia. reflexivity. Qed.
+
+    Lemma el_bin' : forall add bin bin' p, firstn (length add) bin = firstn (length add) bin' -> el add bin p = el add bin' p.
+    Proof. intros add bin bin' p H. rewrite (extend_left_bin N_order T add bin p), (extend_left_bin N_order T add bin' p), H. reflexivity. Qed.
+
+    Lemma Rel_step : forall s s1 s2 p, 1 <= length p <= N_order - 1 -> Rel s s1 s2 ->
+      Rel (stepf (A1 ++ A2) s p) (stepf A1 s1 p) (step2 s1 s2 p).
+    Proof.
+      intros s s1 s2 p Hp HR. assert (Hpn : p <> []) by (destruct p; [cbn in Hp; lia|discriminate]).
+      pose proof a1_pos as Ha1. pose proof a2_pos as Ha2.
+      inversion HR as [M0 M1 M2 X0 X1 X2 HW HJ HL HBk | M0 M1 M2 X1 X0 X2 HW HJ HL HBk | M0 M1 X0 X1 HW HJ HBk].
+      - (* all three still writing *)
+        unfold step2, new1, stepf. rewrite M0, M1, M2, X0, X1, X2.
+        assert (EA : firstn (a1 + a2) (A1 ++ A2) = A1 ++ A2) by (apply firstn_all2; rewrite app_length; unfold a1, a2; lia).
+        assert (EA1 : firstn a1 A1 = A1) by (apply firstn_all). assert (EA2 : firstn a2 A2 = A2) by (apply firstn_all).
+        rewrite EA, EA1, EA2.
+        assert (EB : el (A1 ++ A2) (bk s) p = el (A1 ++ A2) (bk s1 ++ firstn a2 (bk s2)) p).
+        { apply el_bin'. rewrite app_length. fold a1 a2. rewrite HBk. rewrite (firstn_app_exact _ (bk s1) (firstn a2 (bk s2)) a1 HL a2).
+          rewrite firstn_firstn, Nat.min_id. reflexivity. }
+        rewrite EB.
+        destruct (el A1 (bk s1) p) as [[ret1 bo1] nu1] eqn:E1.
+        destruct (r_indep ret1) eqn:Ei1.
+        + rewrite (el_comp_indep A1 A2 (bk s1) (firstn a2 (bk s2)) p ret1 bo1 nu1 Hp HL E1 Ei1). cbn [r_indep r_prob].
+          destruct (extend_left_bounds N_order Hord T _ _ _ _ _ _ Hpn E1) as [Q1 [Q2 _]].
+          apply RelC; cbn [md nx wr aj bk]; try reflexivity; try assumption.
+          rewrite X2. fold a2. rewrite firstn_firstn, Nat.min_id. lia.
+        + destruct (el_comp_ext A1 (bk s1) p ret1 bo1 nu1 Hp HA1 HL E1 Ei1) as [e [He [Hl [Hx [Hbo [Hlen [Hrest [Hprob [Hnu1 HC]]]]]]]]].
+          rewrite Hx.
+          assert (EB2 : el A2 (bk s2) (p ++ A1) = el A2 (firstn a2 (bk s2)) (p ++ A1)).
+          { apply el_bin'. fold a2. rewrite firstn_firstn, Nat.min_id. reflexivity. }
+          rewrite EB2.
+          destruct (el A2 (firstn a2 (bk s2)) (p ++ A1)) as [[ret2 bo2] nu2] eqn:E2.
+          destruct (HC A2 (firstn a2 (bk s2)) ret2 bo2 nu2 E2) as [HC1 HC2]. rewrite HC1. cbn [r_indep r_prob r_rest r_ext].
+          assert (Hpne : p ++ A1 <> []) by (destruct p; [cbn in Hp; lia|discriminate]).
+          destruct (extend_left_bounds N_order Hord T _ _ _ _ _ _ Hpne E2) as [Q1 [Q2 _]]. fold a2 in Q1.
+          rewrite app_length. fold a1 a2.
+          destruct (r_indep ret2) eqn:Ei2.
+          * (* the second call stops on this pointer *)
+            destruct (Nat.eqb_spec nu1 a1) as [En|En].
+            -- apply RelB; cbn [md nx wr aj bk]; try reflexivity; try assumption; try lia.
+               ++ destruct (Nat.eqb_spec nu2 0); lia.
+               ++ destruct (Nat.eqb_spec nu2 0) as [Z|Z].
+                  ** subst nu2. rewrite En. cbn [firstn]. rewrite app_nil_r. rewrite firstn_app. rewrite Hbo. fold a1.
+                     rewrite Nat.sub_diag. cbn [firstn]. rewrite app_nil_r. apply firstn_all2. fold a1 in Hbo. lia.
+                  ** apply firstn_app_exact. exact Hbo.
+            -- assert (Z : nu2 = 0) by (apply HC2; fold a1; lia). subst nu2. cbn [Nat.eqb].
+               apply RelC; cbn [md nx wr aj bk firstn]; try reflexivity; try assumption; try lia.
+               ++ unfold sum_bo. cbn [fold_right]. lia.
+               ++ rewrite firstn_app. rewrite Hbo. fold a1. replace (nu1 - a1) with 0 by lia. cbn [firstn]. apply app_nil_r.
+          * (* the second call writes too *)
+            destruct (Nat.eqb_spec nu1 a1) as [En|En].
+            -- destruct (Nat.eqb_spec nu2 a2) as [En2|En2].
+               ++ assert (Z : Nat.eqb nu2 0 = false) by (apply Nat.eqb_neq; lia).
+                  rewrite Z. rewrite En2. rewrite Nat.eqb_refl.
+                  apply RelA; cbn [md nx wr aj bk]; try reflexivity; try assumption; try lia.
+                  ** rewrite HW. reflexivity.
+                  ** apply firstn_app_exact. exact Hbo.
+               ++ replace (Nat.eqb (if Nat.eqb nu2 0 then nu1 else a1 + nu2) (a1 + a2)) with false
+                    by (symmetry; apply Nat.eqb_neq; destruct (Nat.eqb_spec nu2 0); lia).
+                  apply RelB; cbn [md nx wr aj bk]; try reflexivity; try assumption; try lia.
+                  ** destruct (Nat.eqb_spec nu2 0); lia.
+                  ** rewrite HW. reflexivity.
+                  ** destruct (Nat.eqb_spec nu2 0) as [Z|Z].
+                     --- subst nu2. rewrite En. cbn [firstn]. rewrite app_nil_r. rewrite firstn_app. rewrite Hbo. fold a1.
+                         rewrite Nat.sub_diag. cbn [firstn]. rewrite app_nil_r. apply firstn_all2. fold a1 in Hbo. lia.
+                     --- apply firstn_app_exact. exact Hbo.
+            -- assert (Z : nu2 = 0) by (apply HC2; fold a1; lia). subst nu2. cbn [Nat.eqb].
+               replace (Nat.eqb nu1 (a1 + a2)) with false by (symmetry; apply Nat.eqb_neq; fold a1 in Hnu1; lia).
+               replace (Nat.eqb 0 a2) with false by (symmetry; apply Nat.eqb_neq; lia).
+               apply RelC; cbn [md nx wr aj bk firstn]; try reflexivity; try assumption; try lia.
+               ++ rewrite HW. reflexivity.
+               ++ unfold sum_bo. cbn [fold_right]. lia.
+               ++ rewrite firstn_app. rewrite Hbo. fold a1. replace (nu1 - a1) with 0 by lia. cbn [firstn]. apply app_nil_r.
+      - (* the single call is in its second loop, the first call still writes, the second call is in its second loop *)
+        unfold step2, new1. unfold stepf at 1 2. rewrite M0, M1, X0, X1.
+        replace (Nat.eqb (a1 + nx s2) 0) with false by (symmetry; apply Nat.eqb_neq; lia).
+        assert (EA1 : firstn a1 A1 = A1) by (apply firstn_all). rewrite EA1.
+        assert (EA : firstn (a1 + nx s2) (A1 ++ A2) = A1 ++ firstn (nx s2) A2) by (apply firstn_app_exact; reflexivity).
+        rewrite EA.
+        assert (Ln2 : length (firstn (nx s2) A2) = nx s2) by (rewrite firstn_length; fold a2; lia).
+        assert (EB : el (A1 ++ firstn (nx s2) A2) (bk s) p = el (A1 ++ firstn (nx s2) A2) (bk s1 ++ firstn (nx s2) (bk s2)) p).
+        { apply el_bin'. rewrite app_length, Ln2. fold a1. rewrite <- X0, HBk. rewrite X0.
+          rewrite (firstn_app_exact _ (bk s1) (firstn (nx s2) (bk s2)) a1 HL (nx s2)). rewrite firstn_firstn, Nat.min_id. reflexivity. }
+        rewrite EB.
+        destruct (el A1 (bk s1) p) as [[ret1 bo1] nu1] eqn:E1.
+        destruct (r_indep ret1) eqn:Ei1.
+        + rewrite (el_comp_indep A1 (firstn (nx s2) A2) (bk s1) (firstn (nx s2) (bk s2)) p ret1 bo1 nu1 Hp HL E1 Ei1). cbn [r_prob].
+          destruct (extend_left_bounds N_order Hord T _ _ _ _ _ _ Hpn E1) as [Q1 [Q2 _]].
+          apply RelC; cbn [md nx wr aj bk]; try reflexivity; try assumption.
+          rewrite Ln2, firstn_firstn, Nat.min_id. lia.
+        + destruct (el_comp_ext A1 (bk s1) p ret1 bo1 nu1 Hp HA1 HL E1 Ei1) as [e [He [Hl [Hx [Hbo [Hlen [Hrest [Hprob [Hnu1 HC]]]]]]]]].
+          rewrite Hx. unfold stepf. rewrite M2.
+          destruct (Nat.eqb_spec (nx s2) 0) as [Z2|Z2].
+          * (* the second call has no context left: the written pointer goes to its UnRest *)
+            rewrite Z2 in *. cbn [firstn] in *.
+            destruct (el_nil_prob [] (p ++ A1) e He) as [ret2 [E2 Hp2]].
+            destruct (HC [] [] ret2 [] 0 E2) as [HC1 _]. rewrite HC1. cbn [r_prob Nat.eqb].
+            pose proof (unr_one N_order Hord T dr rest_dr (p ++ A1) e He) as HU.
+            fold a1. destruct (Nat.eqb_spec nu1 a1) as [En|En].
+            -- apply RelB; cbn [md nx wr aj bk firstn]; try reflexivity; try assumption; try lia.
+               rewrite !app_nil_r. rewrite En. apply firstn_all2. fold a1 in Hbo. lia.
+            -- apply RelC; cbn [md nx wr aj bk firstn]; try reflexivity; try assumption; try lia.
+               ++ unfold sum_bo. cbn [fold_right]. lia.
+               ++ rewrite app_nil_r. reflexivity.
+          * assert (EB2 : el (firstn (nx s2) A2) (bk s2) (p ++ A1) = el (firstn (nx s2) A2) (firstn (nx s2) (bk s2)) (p ++ A1)).
+            { apply el_bin'. rewrite Ln2, firstn_firstn, Nat.min_id. reflexivity. }
+            rewrite EB2.
+            destruct (el (firstn (nx s2) A2) (firstn (nx s2) (bk s2)) (p ++ A1)) as [[ret2 bo2] nu2] eqn:E2.
+            destruct (HC (firstn (nx s2) A2) (firstn (nx s2) (bk s2)) ret2 bo2 nu2 E2) as [HC1 HC2]. rewrite HC1. cbn [r_prob].
+            assert (Hpne : p ++ A1 <> []) by (destruct p; [cbn in Hp; lia|discriminate]).
+            destruct (extend_left_bounds N_order Hord T _ _ _ _ _ _ Hpne E2) as [Q1 [Q2 _]]. rewrite Ln2 in Q1.
+            fold a1. destruct (Nat.eqb_spec nu1 a1) as [En|En].
+            -- apply RelB; cbn [md nx wr aj bk]; try reflexivity; try assumption; try lia.
+               ++ destruct (Nat.eqb_spec nu2 0); lia.
+               ++ destruct (Nat.eqb_spec nu2 0) as [Z|Z].
+                  ** subst nu2. rewrite En. cbn [firstn]. rewrite app_nil_r. rewrite firstn_app. rewrite Hbo. fold a1.
+                     rewrite Nat.sub_diag. cbn [firstn]. rewrite app_nil_r. apply firstn_all2. fold a1 in Hbo. lia.
+                  ** apply firstn_app_exact. exact Hbo.
+            -- assert (Z : nu2 = 0) by (apply HC2; fold a1; lia). subst nu2. cbn [Nat.eqb].
+               apply RelC; cbn [md nx wr aj bk firstn]; try reflexivity; try assumption; try lia.
+               ++ unfold sum_bo. cbn [fold_right]. lia.
+               ++ rewrite firstn_app. rewrite Hbo. fold a1. replace (nu1 - a1) with 0 by lia. cbn [firstn]. apply app_nil_r.
+      - (* the first call has stopped: the single call and the first call go on alike, the second call sees nothing more *)
+        unfold step2, new1. rewrite M1. unfold stepf. rewrite M0, M1, X0.
+        destruct (Nat.eqb_spec (nx s1) 0) as [Z|Z].
+        + apply RelC; cbn [md nx wr aj bk]; try reflexivity; try assumption; try lia.
+        + assert (EA : firstn (nx s1) (A1 ++ A2) = firstn (nx s1) A1).
+          { rewrite firstn_app. fold a1. replace (nx s1 - a1) with 0 by lia. cbn [firstn]. apply app_nil_r. }
+          rewrite EA.
+          assert (Ln : length (firstn (nx s1) A1) = nx s1) by (rewrite firstn_length; fold a1; lia).
+          assert (EB : el (firstn (nx s1) A1) (bk s) p = el (firstn (nx s1) A1) (bk s1) p).
+          { apply el_bin'. rewrite Ln. rewrite <- X0 at 1. exact HBk. }
+          rewrite EB.
+          destruct (el (firstn (nx s1) A1) (bk s1) p) as [[ret bo] nu'] eqn:E1.
+          destruct (extend_left_bounds N_order Hord T _ _ _ _ _ _ Hpn E1) as [Q1 [Q2 _]]. rewrite Ln in Q1.
+          apply RelC; cbn [md nx wr aj bk]; try reflexivity; try assumption; try lia.
+    Qed.
+
+    (* pointers written by the first call over P, in order *)
+    Fixpoint news (P : list key) (s1 : st) : list key :=
+      match P with
+      | [] => []
+      | p :: P' => (match new1 s1 p with Some q => [q] | None => [] end) ++ news P' (stepf A1 s1 p)
+      end.
+
+    Lemma wr_step1 : forall s1 p, wr (stepf A1 s1 p) = wr s1 ++ (match new1 s1 p with Some q => [q] | None => [] end).
+    Proof.
+      intros s1 p. unfold stepf, new1. destruct (md s1).
+      - destruct (el (firstn (nx s1) A1) (bk s1) p) as [[ret bo] nu']. destruct (r_indep ret); cbn [wr]; [rewrite app_nil_r|]; reflexivity.
+      - destruct (Nat.eqb (nx s1) 0); [cbn [wr]; rewrite app_nil_r; reflexivity|].
+        destruct (el (firstn (nx s1) A1) (bk s1) p) as [[ret bo] nu']. cbn [wr]. rewrite app_nil_r. reflexivity.
+    Qed.
+
+    Lemma wr_run1 : forall P s1, wr (run A1 P s1) = wr s1 ++ news P s1.
+    Proof.
+      induction P as [|p P IH]; intros s1; [rewrite run_nil; cbn [news]; rewrite app_nil_r; reflexivity|].
+      rewrite run_cons, IH, wr_step1. cbn [news]. rewrite app_assoc. reflexivity.
+    Qed.
+
+    Definition good (p : key) : Prop := 1 <= length p <= N_order - 1.
+
+    Lemma Rel_run : forall P s s1 s2, Forall good P -> Rel s s1 s2 ->
+      Rel (run (A1 ++ A2) P s) (run A1 P s1) (run A2 (news P s1) s2).
+    Proof.
+      induction P as [|p P IH]; intros s s1 s2 HP HR; [exact HR|].
+      inversion HP as [|? ? Hp HP']. subst. rewrite !run_cons. cbn [news].
+      unfold run at 3. rewrite fold_left_app. fold (run A2 (news P (stepf A1 s1 p))).
+      apply IH; [exact HP'|].
+      pose proof (Rel_step s s1 s2 p Hp HR) as H. unfold step2 in H.
+      destruct (new1 s1 p) as [q|]; cbn [fold_left]; exact H.
+    Qed.
+
+    (* ---- the first call on its own: while it writes, it writes p ++ A1 for every p ---------------------------------- *)
+    Definition W1inv (s1 : st) : Prop := md s1 = true -> nx s1 = a1 /\ length (bk s1) = a1.
+
+    Lemma step1_facts : forall s1 p, good p -> W1inv s1 -> Forall good (wr s1) ->
+      let s1' := stepf A1 s1 p in
+      W1inv s1' /\ Forall good (wr s1') /\
+      (md s1' = true -> md s1 = true /\ wr s1' = wr s1 ++ [p ++ A1] /\ length p + a1 <= N_order - 1) /\
+      (md s1 = false -> md s1' = false).
+    Proof.
+      intros s1 p Hp HI HG. cbn zeta. unfold stepf. destruct (md s1) eqn:M1.
+      - destruct (HI M1) as [X1 HL]. rewrite X1.
+        assert (EA1 : firstn a1 A1 = A1) by (apply firstn_all). rewrite EA1.
+        destruct (el A1 (bk s1) p) as [[ret1 bo1] nu1] eqn:E1.
+        destruct (r_indep ret1) eqn:Ei1.
+        + cbn [md wr]. split; [intros H; discriminate|]. split; [exact HG|]. split; intros H; discriminate.
+        + destruct (el_comp_ext A1 (bk s1) p ret1 bo1 nu1 Hp HA1 HL E1 Ei1) as [e [He [Hl [Hx [Hbo [Hlen [_ [_ [Hnu1 _]]]]]]]]].
+          cbn [md wr nx bk]. fold a1. split.
+          * intros H. apply Nat.eqb_eq in H. split; [exact H|exact Hbo].
+          * split.
+            -- apply Forall_app. split; [exact HG|]. constructor; [|constructor]. rewrite Hx. unfold good. rewrite app_length. fold a1.
+               pose proof a1_pos. fold a1 in Hlen. unfold good in Hp. lia.
+            -- split; [|intros H; discriminate]. intros _. split; [reflexivity|]. rewrite Hx. split; [reflexivity|]. fold a1 in Hlen. exact Hlen.
+      - assert (G : forall X : st, md X = false -> W1inv X) by (intros X HX H; congruence).
+        destruct (Nat.eqb (nx s1) 0).
+        + cbn [md wr]. split; [apply G; reflexivity|]. split; [exact HG|]. split; [intros H; discriminate|reflexivity].
+        + destruct (el (firstn (nx s1) A1) (bk s1) p) as [[ret bo] nu']. cbn [md wr].
+          split; [apply G; reflexivity|]. split; [exact HG|]. split; [intros H; discriminate|reflexivity].
+    Qed.
+
+    Lemma run1_facts : forall P s1, Forall good P -> W1inv s1 -> Forall good (wr s1) ->
+      let s1' := run A1 P s1 in
+      W1inv s1' /\ Forall good (wr s1') /\
+      (md s1' = true -> md s1 = true /\ wr s1' = wr s1 ++ map (fun p => p ++ A1) P /\ Forall (fun p => length p + a1 <= N_order - 1) P).
+    Proof.
+      induction P as [|p P IH]; intros s1 HP HI HG; cbn zeta.
+      - rewrite run_nil. split; [exact HI|]. split; [exact HG|]. intros H. split; [exact H|]. cbn [map]. rewrite app_nil_r. split; [reflexivity|constructor].
+      - inversion HP as [|? ? Hp HP']. subst. rewrite run_cons.
+        destruct (step1_facts s1 p Hp HI HG) as [I1 [G1 [K1 K2]]].
+        destruct (IH (stepf A1 s1 p) HP' I1 G1) as [I2 [G2 K3]].
+        split; [exact I2|]. split; [exact G2|]. intros H. destruct (K3 H) as [H1 [H2 H3]]. destruct (K1 H1) as [H4 [H5 H6]].
+        split; [exact H4|]. split.
+        + rewrite H2, H5. rewrite <- app_assoc. reflexivity.
+        + constructor; assumption.
+    Qed.
+
+    (* ---- the second call: a pointer of length N-1 uses up all context ---------------------------------------------- *)
+    Lemma el_last : forall add B q, length q = N_order - 1 -> 2 <= length q -> snd (el add B q) = 0.
+    Proof.
+      intros add B q Hq H2. rewrite extend_left_core. cbn zeta.
+      destruct add as [|h add'].
+      - cbn [resume_core snd pick]. lia.
+      - cbn [resume_core]. unfold rx0_of at 1. cbn [r_indep].
+        replace (Nat.eqb (length q) 1) with false by (symmetry; apply Nat.eqb_neq; lia).
+        replace (Nat.eqb (length q - 1) (N_order - 2)) with true by (symmetry; apply Nat.eqb_eq; lia).
+        destruct (T (q ++ [h])); cbn [snd pick]; lia.
+    Qed.
+
+    Lemma step2_last : forall s2 q, length q = N_order - 1 -> 2 <= length q -> nx (stepf A2 s2 q) = 0.
+    Proof.
+      intros s2 q Hq H2. unfold stepf. destruct (md s2).
+      - pose proof (el_last (firstn (nx s2) A2) (bk s2) q Hq H2) as H.
+        destruct (el (firstn (nx s2) A2) (bk s2) q) as [[ret bo] nu']. cbn [snd] in H. subst nu'. destruct (r_indep ret); reflexivity.
+      - destruct (Nat.eqb_spec (nx s2) 0) as [Z|Z]; [reflexivity|].
+        pose proof (el_last (firstn (nx s2) A2) (bk s2) q Hq H2) as H.
+        destruct (el (firstn (nx s2) A2) (bk s2) q) as [[ret bo] nu']. cbn [snd] in H. subst nu'. reflexivity.
+    Qed.
+
+    Lemma run2_last : forall Q q s2, length q = N_order - 1 -> 2 <= length q -> nx (run A2 (Q ++ [q]) s2) = 0.
+    Proof.
+      intros Q q s2 Hq H2. unfold run. rewrite fold_left_app. cbn [fold_left]. apply step2_last; assumption.
+    Qed.
+
+    (* ---- RevealBefore over A1 ++ A2 is RevealBefore over A1 followed by RevealBefore over A2 -------------------------- *)
+    Lemma chain_map_app : forall P k, chain N_order k P -> Forall (fun p => length p + a1 <= N_order - 1) P ->
+      chain N_order (k + a1) (map (fun p => p ++ A1) P).
+    Proof.
+      induction P as [|p P IH]; intros k HC HF; [exact I|]. cbn [map chain]. destruct HC as [H1 [H2 H3]]. inversion HF as [|? ? F1 F2]. subst.
+      rewrite app_length. fold a1. split; [lia|]. split; [lia|]. replace (S (k + a1)) with (S k + a1) by lia. apply IH; assumption.
+    Qed.
+    Lemma chain_last_len : forall P k p, chain N_order k (P ++ [p]) -> length p = k + length P + 1.
+    Proof.
+      induction P as [|q P IH]; intros k p H; cbn [app chain length] in *; [lia|]. destruct H as [_ [_ H]]. rewrite (IH _ _ H). lia.
+    Qed.
+
+
+    Lemma Rel_sums : forall s s1 s2, Rel s s1 s2 -> W1inv s1 ->
+      (aj s + sum_bo (firstn (nx s) (bk s)))%Z =
+      (aj s1 + sum_bo (firstn (nx s1) (bk s1)) + (aj s2 + sum_bo (firstn (nx s2) (bk s2))))%Z /\ wr s = wr s2.
+    Proof.
+      intros s s1 s2 HR HI. inversion HR as [M0 M1 M2 X0 X1 X2 HW HJ HL HBk | M0 M1 M2 X1 X0 X2 HW HJ HL HBk | M0 M1 X0 X1 HW HJ HBk].
+      - split; [|exact HW]. rewrite X0, HBk, X1, X2, sum_bo_app'. rewrite (firstn_all2 (n := a1) (bk s1)) by lia. lia.
+      - split; [|exact HW]. rewrite HBk, X1, sum_bo_app'. rewrite (firstn_all2 (n := a1) (bk s1)) by lia. lia.
+      - split; [|exact HW]. rewrite HBk. lia.
+    Qed.
+
+    Theorem rbf_two : forall B1 B2 l r s, length B1 = a1 -> length B2 = a2 -> BJ l r s -> s + a1 + a2 <= N_order - 1 ->
+      let '(x1, l1, r1) := rbf A1 B1 l r in
+      rbf (A1 ++ A2) (B1 ++ B2) l r = (let '(x2, l2, r2) := rbf A2 B2 l1 r1 in ((x1 + x2)%Z, l2, r2)) /\ BJ l1 r1 (s + a1).
+    Proof.
+      intros B1 B2 l r s HB1 HB2 [HG [Hsw Hopen]] Hu.
+      pose proof a1_pos as Ha1. pose proof a2_pos as Ha2.
+      unfold rbf. rewrite !xl_run. cbn zeta. rewrite app_length. fold a1 a2.
+      set (P := l_ptrs l) in *.
+      set (s0 := {| md := true; wr := []; aj := 0%Z; nx := a1 + a2; bk := firstn (a1 + a2) (B1 ++ B2) |}).
+      set (s10 := {| md := true; wr := []; aj := 0%Z; nx := a1; bk := firstn a1 B1 |}).
+      assert (R0 : Rel s0 s10 {| md := true; wr := []; aj := 0%Z; nx := a2; bk := firstn a2 B2 |}).
+      { apply RelA; cbn [md nx wr aj bk]; try reflexivity.
+        - unfold s10. cbn [bk]. rewrite firstn_length. lia.
+        - unfold s0, s10. cbn [bk]. rewrite firstn_firstn, Nat.min_id. rewrite (firstn_all2 (n := a1) B1) by lia.
+          rewrite !(firstn_all2 (n := a2) B2) by lia. apply firstn_all2. rewrite app_length. lia. }
+      pose proof (Rel_run P _ _ _ HG R0) as HR.
+      assert (I0 : W1inv s10) by (intros _; unfold s10; cbn [nx bk]; split; [reflexivity|rewrite firstn_length; lia]).
+      destruct (run1_facts P s10 HG I0 ltac:(constructor)) as [I1 [G1 K1]].
+      assert (HW1 : news P s10 = wr (run A1 P s10)) by (rewrite wr_run1; reflexivity). rewrite HW1 in HR.
+      set (sf := run (A1 ++ A2) P s0) in *. set (s1f := run A1 P s10) in *.
+      set (s2f := run A2 (wr s1f) {| md := true; wr := []; aj := 0%Z; nx := a2; bk := firstn a2 B2 |}) in *.
+      cbn [x_adjust x_make_full x_next_use].
+      destruct (l_full l) eqn:Ef.
+      - (* the left state was complete before: back-offs are charged at once by all three calls *)
+        cbn [l_ptrs l_full]. rewrite xl_run. cbn zeta. fold a2. fold s2f. cbn [x_adjust x_make_full x_next_use].
+        destruct (Rel_sums _ _ _ HR I1) as [HS HW]. split.
+        + rewrite HS, HW. reflexivity.
+        + split; [exact G1|]. split; [exact Hsw|]. cbn [l_full]. discriminate.
+      - destruct (Hopen eq_refl) as [HC HLen].
+        assert (NeP : Forall (fun p : key => p <> []) P).
+        { apply Forall_forall. intros p Hin. rewrite Forall_forall in HG. specialize (HG p Hin). unfold good' in HG. destruct p; [cbn in HG; lia|discriminate]. }
+        assert (Bd1 : nx s1f <= a1 /\ nx s1f <= length (bk s1f)).
+        { apply (run_bounds A1 P s10 NeP); unfold s10; cbn [nx bk]; [fold a1; lia|rewrite firstn_length; lia]. }
+        assert (EA1 : firstn a1 A1 = A1) by apply firstn_all.
+        (* what the first call leaves when it never stopped *)
+        assert (Open1 : md s1f = true ->
+                  wr s1f = map (fun p => p ++ A1) P /\ nx s1f = a1 /\ length (bk s1f) = a1 /\
+                  Nat.eqb (length (wr s1f)) (N_order - 1) = false /\ chain N_order (s + a1) (wr s1f) /\
+                  (Nat.eqb (length (s_words r ++ A1)) (N_order - 1) = true -> nx s2f = 0)).
+        { intros M1. destruct (K1 M1) as [_ [HWr HFl]]. unfold s10 in HWr. cbn [wr app] in HWr. destruct (I1 M1) as [X1' HL'].
+          split; [exact HWr|]. split; [exact X1'|]. split; [exact HL'|].
+          assert (HPlen : length P = 0 \/ length P + s + a1 <= N_order - 1).
+          { destruct (Nat.eq_dec (length P) 0) as [Z|Z]; [left; exact Z|]. right.
+            assert (HPne : P <> []) by (intros E; rewrite E in Z; cbn in Z; lia).
+            destruct (exists_last HPne) as [P' [pl EP]].
+            rewrite EP in HC, HFl. pose proof (chain_last_len _ _ _ HC) as Hpl.
+            apply Forall_app in HFl. destruct HFl as [_ HFl]. inversion HFl as [|? ? Hq _]. subst.
+            rewrite EP, app_length. cbn [length]. lia. }
+          split; [rewrite HWr, map_length; apply Nat.eqb_neq; unfold key in *; lia|].
+          split; [rewrite HWr; apply chain_map_app; assumption|].
+          intros Ec. apply Nat.eqb_eq in Ec. rewrite app_length in Ec. fold a1 in Ec.
+          assert (HPne : P <> []) by (intros E; rewrite E in HLen; cbn [length] in HLen; lia).
+          destruct (exists_last HPne) as [P' [pl EP]].
+          rewrite EP in HC. pose proof (chain_last_len _ _ _ HC) as Hpl.
+          assert (Hq : length (pl ++ A1) = N_order - 1) by (rewrite app_length; fold a1; rewrite EP, app_length in HLen; cbn [length] in HLen; lia).
+          unfold s2f. rewrite HWr, EP, map_app. cbn [map]. apply run2_last; [exact Hq|rewrite app_length; fold a1; lia]. }
+        inversion HR as [M0 M1 M2 X0 X1 X2 HW HJ HL HBk | M0 M1 M2 X1 X0 X2 HW HJ HL HBk | M0 M1 X0 X1 HW HJ HBk].
+        + (* nobody stopped *)
+          destruct (Open1 M1) as [HWr [_ [_ [HnP [HCh Hlast]]]]].
+          rewrite M1, M0, X1, X0, EA1. cbn [negb orb]. rewrite HnP. cbn [orb].
+          destruct (Nat.eqb (length (s_words r ++ A1)) (N_order - 1)) eqn:Ec; [specialize (Hlast eq_refl); lia|].
+          cbn [l_ptrs l_full s_words s_bo]. rewrite ?Ec. rewrite xl_run. cbn zeta. fold a2. fold s2f. cbn [x_adjust x_make_full x_next_use].
+          rewrite M2, X2. cbn [negb orb].
+          rewrite (firstn_app_exact _ A1 A2 a1 eq_refl a2), HBk, HW, HJ. rewrite (firstn_all2 (n := a1) (bk s1f)) by lia.
+          rewrite !app_assoc. split; [reflexivity|].
+          split; [exact G1|]. split; [cbn [s_bo s_words]; rewrite !app_length; lia|].
+          cbn [l_full l_ptrs s_words]. intros _. split; [exact HCh|]. rewrite app_length, HWr, map_length. fold a1. unfold key in *. lia.
+        + (* the single call and the second call stopped on the same pointer, the first call never stopped *)
+          destruct (Open1 M1) as [HWr [_ [_ [HnP [HCh Hlast]]]]].
+          rewrite M1, M0, X1, X0, EA1. cbn [negb orb]. rewrite HnP. cbn [orb].
+          destruct (Nat.eqb (length (s_words r ++ A1)) (N_order - 1)) eqn:Ec.
+          * (* ... and the right state is complete by its length: the last pointer has used up all context *)
+            specialize (Hlast eq_refl).
+            cbn [l_ptrs l_full s_words s_bo]. rewrite ?Ec. rewrite xl_run. cbn zeta. fold a2. fold s2f. cbn [x_adjust x_make_full x_next_use].
+            rewrite X0, Hlast, Nat.add_0_r in HBk. cbn [firstn] in HBk. rewrite app_nil_r in HBk.
+            rewrite Hlast, Nat.add_0_r. cbn [firstn].
+            assert (EA0 : firstn a1 (A1 ++ A2) = A1) by (rewrite firstn_app; fold a1; rewrite Nat.sub_diag; cbn [firstn]; rewrite app_nil_r; apply firstn_all).
+            rewrite EA0, HBk, HW, HJ.
+            rewrite (firstn_all2 (n := a1) (bk s1f)) by lia. unfold sum_bo at 1. cbn [fold_right].
+            split; [f_equal; f_equal; lia|].
+            split; [exact G1|]. split; [cbn [s_bo s_words]; rewrite !app_length; lia|]. cbn [l_full]. discriminate.
+          * cbn [l_ptrs l_full s_words s_bo]. rewrite ?Ec. rewrite xl_run. cbn zeta. fold a2. fold s2f. cbn [x_adjust x_make_full x_next_use].
+            rewrite M2. cbn [negb orb].
+            rewrite X0 in HBk. rewrite (firstn_app_exact _ A1 A2 a1 eq_refl (nx s2f)), HBk, HW, HJ. rewrite (firstn_all2 (n := a1) (bk s1f)) by lia.
+            rewrite !app_assoc. split; [reflexivity|].
+            split; [exact G1|]. split; [cbn [s_bo s_words]; rewrite !app_length; lia|].
+            cbn [l_full l_ptrs s_words]. intros _. split; [exact HCh|]. rewrite app_length, HWr, map_length. fold a1. unfold key in *. lia.
+        + (* the first call stopped *)
+          rewrite M1, M0. cbn [negb orb l_ptrs l_full]. rewrite xl_run. cbn zeta. fold a2. fold s2f. cbn [x_adjust x_make_full x_next_use].
+          assert (EA : firstn (nx sf) (A1 ++ A2) = firstn (nx s1f) A1).
+          { rewrite X0. rewrite firstn_app. fold a1. replace (nx s1f - a1) with 0 by lia. cbn [firstn]. apply app_nil_r. }
+          rewrite EA, HBk, HW, HJ. split.
+          * f_equal. f_equal. lia.
+          * split; [exact G1|]. split; [|cbn [l_full]; discriminate]. cbn [s_bo s_words]. rewrite !app_length, !firstn_length. fold a1. lia.
+    Qed.
+
+  End Sim.
+
+  (* ---- on the revealed state itself ------------------------------------------------------------------------------ *)
+  Definition rvc (W : list word) (Bk : list boval) (c : nat) : state := {| s_words := firstn c W; s_bo := firstn c Bk |}.
+
+  Theorem rb_two : forall W Bk l r s t u, length Bk = length W -> s < t -> t < u -> u <= length W -> u <= N_order - 1 -> BJ l r s ->
+    let '(x1, l1, r1) := reveal_before N_order T dr (rvc W Bk t) s false l r in
+    reveal_before N_order T dr (rvc W Bk u) s false l r =
+      (let '(x2, l2, r2) := reveal_before N_order T dr (rvc W Bk u) t false l1 r1 in ((x1 + x2)%Z, l2, r2)) /\ BJ l1 r1 t.
+  Proof.
+    intros W Bk l r s t u HL Hst Htu Hu HuN HJ.
+    rewrite !rb_unfold. unfold rvc. cbn [s_words s_bo].
+    assert (Hsu : s <= t) by lia. assert (Htu' : t <= u) by lia.
+    rewrite (skip_first_split N_order Hord _ W s t u Hsu Htu' Hu).
+    rewrite (skip_first_split N_order Hord _ Bk s t u Hsu Htu' ltac:(lia)).
+    set (A1 := skipn s (firstn t W)). set (A2 := skipn t (firstn u W)).
+    set (B1 := skipn s (firstn t Bk)). set (B2 := skipn t (firstn u Bk)).
+    assert (L1 : length A1 = t - s) by (unfold A1; rewrite skipn_length, firstn_length; lia).
+    assert (L2 : length A2 = u - t) by (unfold A2; rewrite skipn_length, firstn_length; lia).
+    assert (L3 : length B1 = t - s) by (unfold B1; rewrite skipn_length, firstn_length; lia).
+    assert (L4 : length B2 = u - t) by (unfold B2; rewrite skipn_length, firstn_length; lia).
+    assert (N1 : A1 <> []) by (intros E; rewrite E in L1; cbn in L1; lia).
+    assert (N2 : A2 <> []) by (intros E; rewrite E in L2; cbn in L2; lia).
+    pose proof (rbf_two A1 A2 N1 N2 B1 B2 l r s ltac:(lia) ltac:(lia) HJ ltac:(lia)) as H.
+    destruct (rbf A1 B1 l r) as [[x1 l1] r1]. rewrite L1 in H. replace (s + (t - s)) with t in H by lia. exact H.
+  Qed.
+
+  (* RevealBefore called once per cut point c1 < c2 < ..., each time with the state cut to its first c_i words and seen = c_(i-1) *)
+  Fixpoint rb_seq (W : list word) (Bk : list boval) (l : left) (r : state) (seen : nat) (cuts : list nat) : Z * left * state :=
+    match cuts with
+    | [] => (0%Z, l, r)
+    | c :: cs =>
+        let '(a, l1, r1) := reveal_before N_order T dr (rvc W Bk c) seen false l r in
+        let '(a', l2, r2) := rb_seq W Bk l1 r1 c cs in ((a + a')%Z, l2, r2)
+    end.
+  Fixpoint sincreasing (from : nat) (cuts : list nat) (upto : nat) : Prop :=
+    match cuts with [] => from <= upto | c :: cs => from < c /\ sincreasing c cs upto end.
+
+  Lemma sincreasing_last : forall cuts from upto, sincreasing from cuts upto -> from <= last cuts from /\ last cuts from <= upto.
+  Proof.
+    induction cuts as [|x cs IH]; intros from upto H; cbn [sincreasing last] in *; [lia|].
+    destruct H as [H1 H2]. specialize (IH x upto H2). destruct cs as [|y cs']; [cbn [last] in IH; lia|].
+    rewrite (last_default (y :: cs') from x) by discriminate. lia.
+  Qed.
+
+  Theorem rb_seq_one_shot : forall cuts c W Bk l r seen, length Bk = length W -> length W <= N_order - 1 -> BJ l r seen ->
+    sincreasing seen (c :: cuts) (length W) ->
+    rb_seq W Bk l r seen (c :: cuts) = reveal_before N_order T dr (rvc W Bk (last cuts c)) seen false l r.
+  Proof.
+    induction cuts as [|c' cuts IH]; intros c W Bk l r seen HL HN HJ Hi.
+    - cbn [rb_seq last]. destruct (reveal_before N_order T dr (rvc W Bk c) seen false l r) as [[a l1] r1]. f_equal. f_equal. lia.
+    - destruct Hi as [H1 Hi]. pose proof Hi as Hi'. destruct Hi' as [H2 Hi'].
+      pose proof (sincreasing_last _ _ _ Hi') as Hlast.
+      change (rb_seq W Bk l r seen (c :: c' :: cuts)) with
+        (let '(a, l1, r1) := reveal_before N_order T dr (rvc W Bk c) seen false l r in
+         let '(a', l2, r2) := rb_seq W Bk l1 r1 c (c' :: cuts) in ((a + a')%Z, l2, r2)).
+      rewrite (last_cons cuts c' c).
+      set (d := last cuts c') in *.
+      pose proof (rb_two W Bk l r seen c d HL H1 ltac:(lia) ltac:(lia) ltac:(lia) HJ) as HT.
+      destruct (reveal_before N_order T dr (rvc W Bk c) seen false l r) as [[a1 l1] r1]. destruct HT as [HT HJ1].
+      rewrite HT. rewrite (IH c' W Bk l1 r1 c HL HN HJ1 Hi). fold d. reflexivity.
+  Qed.
+
+  (* ---- the closing call: RevealBefore(reveal, seen = reveal.length, reveal_full = true) ---------------------------------
+     Writing pointers (rest costs) and converting them afterwards (UnRest) is the same as never writing them (probabilities). *)
+  Section WriteVsFull.
+    Variable A : list word.
+    Hypothesis HA : A <> [].
+    Let a := length A.
+
+    Definition Rw (sw sf : st) : Prop :=
+      md sf = false /\ aj sf = (aj sw + unr (wr sw))%Z /\ nx sf = nx sw /\ bk sf = bk sw /\ wr sf = [] /\
+      (md sw = true -> nx sw = a /\ length (bk sw) = a).
+
+    Lemma Rw_step : forall sw sf p, good' p -> Rw sw sf -> Rw (stepf A sw p) (stepf A sf p).
+    Proof.
+      intros sw sf p Hp [F1 [F2 [F3 [F4 [F5 F6]]]]].
+      assert (Ha : 1 <= a) by (unfold a; assert (length A <> 0) by (intro H0; apply HA; apply length_zero_iff_nil; exact H0); lia).
+      unfold stepf. rewrite F1, F3, F4. destruct (md sw) eqn:Mw.
+      - destruct (F6 eq_refl) as [X HL]. rewrite X.
+        replace (Nat.eqb a 0) with false by (symmetry; apply Nat.eqb_neq; lia).
+        assert (EA : firstn a A = A) by apply firstn_all. rewrite EA.
+        destruct (el A (bk sw) p) as [[ret bo] nu'] eqn:E1.
+        destruct (r_indep ret) eqn:Ei.
+        + unfold Rw. cbn [md aj nx bk wr]. split; [reflexivity|]. split; [lia|]. split; [reflexivity|]. split; [reflexivity|].
+          split; [assumption|]. intros HH; discriminate.
+        + destruct (el_comp_ext A (bk sw) p ret bo nu' Hp HA HL E1 Ei) as [e [He [Hl [Hx [Hbo [Hlen [Hrest [Hprob [Hnu1 _]]]]]]]]].
+          pose proof (unr_one N_order Hord T dr rest_dr (p ++ A) e He) as HU.
+          unfold Rw. cbn [md aj nx bk wr]. split; [reflexivity|]. split; [rewrite (unr_app' N_order Hord), Hx; lia|].
+          split; [reflexivity|]. split; [reflexivity|]. split; [assumption|].
+          intros HH. apply Nat.eqb_eq in HH. split; [exact HH|exact Hbo].
+      - destruct (Nat.eqb (nx sw) 0).
+        + unfold Rw. cbn [md aj nx bk wr]. split; [reflexivity|]. split; [lia|]. split; [reflexivity|]. split; [reflexivity|].
+          split; [assumption|]. intros HH; discriminate.
+        + destruct (el (firstn (nx sw) A) (bk sw) p) as [[ret bo] nu'].
+          unfold Rw. cbn [md aj nx bk wr]. split; [reflexivity|]. split; [lia|]. split; [reflexivity|]. split; [reflexivity|].
+          split; [assumption|]. intros HH; discriminate.
+    Qed.
+
+    Lemma Rw_run : forall P sw sf, Forall good' P -> Rw sw sf -> Rw (run A P sw) (run A P sf).
+    Proof.
+      induction P as [|p P IH]; intros sw sf HP HR; [exact HR|]. inversion HP as [|? ? Hp HP']. subst.
+      rewrite !run_cons. apply IH; [exact HP'|]. apply Rw_step; assumption.
+    Qed.
+  End WriteVsFull.
+
+  Lemma xl_run_full : forall add bs P,
+    extend_loop N_order T dr add bs P false =
+    (let s := run add P {| md := false; wr := []; aj := 0%Z; nx := length add; bk := firstn (length add) bs |} in
+     ({| x_adjust := aj s; x_make_full := false; x_next_use := nx s |}, [], firstn (nx s) (bk s))).
+  Proof.
+    intros add bs P. cbn zeta. unfold extend_loop.
+    destruct (ext_full N_order T add P 0%Z (length add) (firstn (length add) bs)) as [[[rest2 a2] nu2] b2] eqn:E2.
+    rewrite (run_full _ _ _ _ _ _ _ _ _ _ E2). reflexivity.
+  Qed.
+
+  Theorem rb_finish : forall rv l r, length (s_bo rv) = length (s_words rv) -> s_words rv <> [] -> Forall good' (l_ptrs l) ->
+    reveal_before N_order T dr rv 0 true l r =
+    (let '(x1, l1, r1) := reveal_before N_order T dr rv 0 false l r in
+     let '(x2, l2, r2) := reveal_before N_order T dr rv (length (s_words rv)) true l1 r1 in ((x1 + x2)%Z, l2, r2)).
+  Proof.
+    intros rv l r HL HW HG. destruct rv as [W Bk]. cbn [s_words s_bo] in *.
+    unfold reveal_before. cbn [negb skipn s_words s_bo].
+    rewrite skipn_all. rewrite (skipn_all2 (n := length W) Bk) by lia.
+    rewrite xl_run_full, xl_run. cbn zeta.
+    set (sw0 := {| md := true; wr := []; aj := 0%Z; nx := length W; bk := firstn (length W) Bk |}).
+    set (sf0 := {| md := false; wr := []; aj := 0%Z; nx := length W; bk := firstn (length W) Bk |}).
+    assert (R0 : Rw W sw0 sf0).
+    { unfold Rw, sw0, sf0. cbn [md aj nx bk wr]. rewrite unr_nil''. split; [reflexivity|]. split; [lia|]. split; [reflexivity|]. split; [reflexivity|].
+      split; [reflexivity|]. intros _. split; [reflexivity|rewrite firstn_length; lia]. }
+    destruct (Rw_run W HW (l_ptrs l) sw0 sf0 HG R0) as [F1 [F2 [F3 [F4 [F5 F6]]]]].
+    set (sw := run W (l_ptrs l) sw0) in *. set (sf := run W (l_ptrs l) sf0) in *.
+    cbn [x_adjust x_make_full x_next_use].
+    rewrite F2, F3, F4.
+    assert (XC : forall Q, extend_loop N_order T dr [] [] Q false = ({| x_adjust := unr Q; x_make_full := false; x_next_use := 0 |}, [], [])).
+    { intros Q. rewrite xl_run_full. cbn zeta. cbn [length firstn]. rewrite run_stopped. cbn [aj nx bk firstn]. repeat (f_equal; try lia). }
+    destruct (l_full l) eqn:Ef.
+    - cbn [l_full l_ptrs]. rewrite XC. cbn [x_adjust x_next_use]. unfold sum_bo at 3. cbn [fold_right]. repeat (f_equal; try lia).
+    - cbn [l_full l_ptrs orb].
+      destruct (orb (orb (negb (md sw)) (Nat.eqb (length (wr sw)) (N_order - 1)))
+                    (Nat.eqb (length (s_words r ++ firstn (nx sw) W)) (N_order - 1))); cbn [l_ptrs].
+      + rewrite XC. cbn [x_adjust x_next_use]. unfold sum_bo. cbn [fold_right]. repeat (f_equal; try lia).
+      + rewrite XC. cbn [x_adjust x_next_use firstn s_words s_bo orb]. rewrite !app_nil_r. repeat (f_equal; try lia).
+  Qed.
+
+  (* ---- fragments ---------------------------------------------------------------------------------------------------- *)
+  Notation flatf := (flat N_order T).
+  Notation fin := (rs_finish N_order).
+
+  Lemma chain_good : forall P k, chain N_order k P -> Forall good' P.
+  Proof.
+    induction P as [|p P IH]; intros k H; [constructor|]. destruct H as [H1 [H2 H3]]. constructor; [unfold good'; lia|exact (IH _ H3)].
+  Qed.
+
+  Lemma flat_right_len : forall ws X, length (s_words (rs_right X)) <= N_order - 1 ->
+    length (s_words (rs_right (flatf X ws))) <= N_order - 1.
+  Proof.
+    induction ws as [|w ws IH]; intros X HX; [exact HX|]. cbn [flat fold_left]. apply IH.
+    unfold rs_terminal. pose proof (state_bounds N_order Hord T M Inv (rs_right X) w) as [HB _].
+    destruct (full_score N_order T (rs_right X) w) as [ret out]. cbn [snd] in HB.
+    destruct (rs_done X); [exact HB|]. destruct (r_indep ret); exact HB.
+  Qed.
+
+  Lemma reveal_before_one_shot : forall us ws, Forall (known T) us -> Forall (known T) ws ->
+    let A := fin (flatf rs_init us) in
+    let B := fin (flatf rs_init ws) in
+    fst (fst (reveal_before N_order T dr (c_right (fst A)) 0 (l_full (c_left (fst A))) (c_left (fst B)) (c_right (fst B)))) =
+    (snd (fin (flatf rs_init (us ++ ws))) - snd A - snd B)%Z.
+  Proof.
+    intros us ws Hu Hw A B.
+    rewrite (proj1 (reveal_before_is_subsume N_order T dr (c_left (fst A)) (c_right (fst A)) (c_left (fst B)) (c_right (fst B)))).
+    destruct (subsume N_order T dr (c_left (fst A)) (c_right (fst A)) (c_left (fst B)) (c_right (fst B))) as [[adj l'] r'] eqn:ES.
+    pose proof (subsume_flat N_order Hord T M Inv dr rest_dr ext_ctx us ws Hu Hw adj l' r' ES) as HF.
+    apply (f_equal snd) in HF. cbn [fst snd] in *. unfold rs_finish at 1 in HF. cbn [snd mkrs rs_prob] in HF.
+    unfold A, B. lia.
+  Qed.
+
+  (* RevealBefore in instalments: the right state of the preceding fragment revealed up to c1, then c2, ... words (the last cut
+     being all of them), plus the closing call when that fragment's left state is complete, give the whole minus the parts *)
+  Theorem reveal_before_incremental : forall us ws c cuts, Forall (known T) us -> Forall (known T) ws ->
+    let A := fin (flatf rs_init us) in
+    let B := fin (flatf rs_init ws) in
+    let rv := c_right (fst A) in
+    sincreasing 0 (c :: cuts) (length (s_words rv)) -> last cuts c = length (s_words rv) ->
+    let '(a1, l1, r1) := rb_seq (s_words rv) (s_bo rv) (c_left (fst B)) (c_right (fst B)) 0 (c :: cuts) in
+    let '(a2, l2, r2) := if l_full (c_left (fst A))
+                         then reveal_before N_order T dr rv (length (s_words rv)) true l1 r1
+                         else (0%Z, l1, r1) in
+    (a1 + a2)%Z = (snd (fin (flatf rs_init (us ++ ws))) - snd A - snd B)%Z.
+  Proof.
+    intros us ws c cuts Hu Hw A B rv Hi Hlast.
+    assert (W0 : wf rs_init) by (constructor; cbn; [reflexivity|constructor|reflexivity]).
+    assert (WA : wf (flatf rs_init us)) by (apply flat_wf; [exact Hord|exact W0]).
+    assert (WB : wf (flatf rs_init ws)) by (apply flat_wf; [exact Hord|exact W0]).
+    pose proof (fin_cwf N_order (flatf rs_init us) WA) as CA. fold A in CA.
+    pose proof (fin_cwf N_order (flatf rs_init ws) WB) as CB. fold B in CB.
+    assert (Hsw : length (s_bo rv) = length (s_words rv)) by (destruct CA as [C1 _ _]; exact C1).
+    assert (HrvN : length (s_words rv) <= N_order - 1).
+    { unfold rv, A. rewrite fin_eq. cbn [fst mkchart c_right]. apply flat_right_len. cbn. lia. }
+    assert (HC : chain N_order 0 (l_ptrs (c_left (fst B)))).
+    { unfold B. rewrite fin_eq. cbn [fst mkchart c_left l_ptrs]. apply (flat_chain N_order Hord T M Inv ext_ctx); [exact W0|exact Hw|exact I]. }
+    assert (HJ : BJ (c_left (fst B)) (c_right (fst B)) 0).
+    { destruct CB as [C1 C2 C3]. split; [exact (chain_good _ _ HC)|]. split; [exact C1|]. intros Hf. split; [exact HC|]. rewrite (C3 Hf). lia. }
+    assert (Hne : s_words rv <> []).
+    { intros E. rewrite E in Hi. cbn [length sincreasing] in Hi. destruct Hi as [Hc Hi]. pose proof (sincreasing_last _ _ _ Hi). lia. }
+    rewrite (rb_seq_one_shot cuts c (s_words rv) (s_bo rv) _ _ 0 Hsw HrvN HJ Hi). rewrite Hlast.
+    assert (Erv : rvc (s_words rv) (s_bo rv) (length (s_words rv)) = rv).
+    { unfold rvc. rewrite firstn_all. rewrite <- Hsw, firstn_all. destruct rv; reflexivity. }
+    rewrite Erv.
+    pose proof (reveal_before_one_shot us ws Hu Hw) as H1. cbn zeta in H1. fold A B rv in H1.
+    destruct (l_full (c_left (fst A))) eqn:Ef.
+    - pose proof (rb_finish rv (c_left (fst B)) (c_right (fst B)) Hsw Hne (chain_good _ _ HC)) as HF.
+      destruct (reveal_before N_order T dr rv 0 false (c_left (fst B)) (c_right (fst B))) as [[a1 l1] r1].
+      destruct (reveal_before N_order T dr rv (length (s_words rv)) true l1 r1) as [[a2 l2] r2].
+      rewrite HF in H1. exact H1.
+    - destruct (reveal_before N_order T dr rv 0 false (c_left (fst B)) (c_right (fst B))) as [[a1 l1] r1]. cbn [fst] in H1. lia.
+  Qed.
+End RevealBefore.
